@@ -16,6 +16,7 @@ package main
 import (
 	"encoding/json"
 	"errors"
+	"flag"
 	"fmt"
 	"sort"
 	"sync"
@@ -137,6 +138,9 @@ type backend struct {
 	sent       []sentRec
 	notifyPass int // upcoming NotifyReceived calls answered ok before NotifyFail is consulted
 	notifyN    int // calls seen
+	// probe hooks (extract fallback): called on entry, outside the lock
+	hookNotify func()
+	hookSend   func(tx *wire.MsgTx)
 }
 
 type sentRec struct {
@@ -145,6 +149,9 @@ type sentRec struct {
 }
 
 func (b *backend) SendRawTransaction(tx *wire.MsgTx, allowHighFees bool) (*chainhash.Hash, error) {
+	if b.hookSend != nil {
+		b.hookSend(tx)
+	}
 	b.mu.Lock()
 	defer b.mu.Unlock()
 	h, err := b.Chain.SendRawTransaction(tx, allowHighFees)
@@ -157,6 +164,9 @@ func (b *backend) SendRawTransaction(tx *wire.MsgTx, allowHighFees bool) (*chain
 }
 
 func (b *backend) NotifyReceived(addrs []btcutil.Address) error {
+	if b.hookNotify != nil {
+		b.hookNotify()
+	}
 	b.mu.Lock()
 	defer b.mu.Unlock()
 	b.notifyN++
@@ -1277,11 +1287,11 @@ func systematic(seed int64) []caseIn {
 		return []opIn{
 			{K: "fund", Amts: []int64{1000000, 600000}},
 			{K: "mine"},
-			{K: "publish", Amt: 200000, Minconf: 1},            // broadcast 0
-			{K: "send", Amt: 300000, Minconf: 0},               // broadcast 1: spends the change of 0 when 0 stayed
+			{K: "publish", Amt: 200000, Minconf: 1},              // broadcast 0
+			{K: "send", Amt: 300000, Minconf: 0},                 // broadcast 1: spends the change of 0 when 0 stayed
 			{K: "publish", Amt: 150000, Minconf: 0, Lease: true}, // broadcast 2: leased inputs
-			{K: "republish", Which: "unconf", Pick: 0},         // broadcast 3: oldest unconfirmed, has descendants
-			{K: "send", Amt: 50000, Minconf: 0},                // broadcast 4
+			{K: "republish", Which: "unconf", Pick: 0},           // broadcast 3: oldest unconfirmed, has descendants
+			{K: "send", Amt: 50000, Minconf: 0},                  // broadcast 4
 			{K: "resend"},
 		}
 	}
@@ -1394,7 +1404,18 @@ func randomCase(r *gen.R, seed int64, long bool) caseIn {
 }
 
 func main() {
-	core.Main("c20", nil, func(c *core.Common, out *core.Emitter) error {
+	probe := false
+	core.Main("c20", func(fs *flag.FlagSet) {
+		fs.BoolVar(&probe, "probe", false, "print the behaviourally determined facts of the broadcast path (extract fallback)")
+	}, func(c *core.Common, out *core.Emitter) error {
+		if probe {
+			res, err := runProbe()
+			if err != nil {
+				return err
+			}
+			out.Emit(res)
+			return nil
+		}
 		emit := func(in caseIn, tags []string) error {
 			co, err := runCase(in, tags)
 			if err != nil {
